@@ -26,7 +26,13 @@ RULE = ("shapes {Hexagon, Rectangle (square and non-square), Circle, Cell, "
         "shape's own vertices (disc for the circle).  Signature = (kind, shape "
         "class, rotation class, query class, cluster size); non-trivial = a "
         "decided query (points closer than 1e-9 radius to the boundary are "
-        "tallied as tie zone).")
+        "tallied as tie zone).  "
+        "A third of the hexagon/circle/Cell/Cell3Sec shapes are reached through "
+        "pos/radius/rotation setters and the relative-move methods in random "
+        "order; users of a moved cell and users seen through a wrapped copy are "
+        "re-checked; sector users against an independent sector hexagon; border "
+        "ratios include 0, 1 and 1e-12; cluster-level border users in all four "
+        "call forms. ")
 ASSUMPTIONS = ["np.random is seeded per case (user placement uses the global "
                "generator)",
                "uniformity of the random placement is not part of the property"]
